@@ -249,14 +249,18 @@ def g_distributions(rng):
             {"id": "bridge", "type": "BayesianBridge", "x": "x", "scale": P("bb.scale", [1.2]), "alpha": P("bb.alpha", [0.7])},
             {"id": "mixture", "type": "ScaleMixtureNormal", "x": "x", "loc": 0.0, "global_scale": P("sm.global", [0.9]), "local_scale": P("sm.local", np.exp(rng.normal(0, 0.3, d)).tolist())},
             {"id": "gmrfcov", "type": "GMRFCovariate", "field": "x", "precision": P("gc.prec", [1.1]), "covariates": rng.normal(0, 1, (d, 2)).round(3).tolist(), "beta": P("gc.beta", [0.3, -0.2])},
+            # an L1 penalty and two things that depend on its variable without being part of it
+            dist("lasso", "torch.distributions.Laplace", P("beta", rng.normal(0, 1, 2).tolist()), loc=0.0, scale=1.0),
+            {"id": "beta.exp", "type": "TransformedParameter", "transform": "torch.distributions.ExpTransform", "x": "beta"},
+            dist("d.obs", "torch.distributions.Normal", P("obs.y", [0.3, -0.2]), loc="beta", scale=1.0),
             {"id": "inner", "type": "JointDistributionModel", "distributions": ["d.normal", "d.lognormal", "y.log"]},
             {"id": "joint", "type": "JointDistributionModel", "distributions": ["inner", "d.gamma", "d.head", "d.rev", "d.xy", "d.affine", "mvn", "bridge", "mixture", "x.affine", "x.cumsumexp"]}]
     return {"name": "distributions", "spec": spec,
-            "evals": ["d.normal", "d.lognormal", "d.gamma", "d.head", "d.rev", "d.xy", "d.affine", "d.convex", "d.cse", "d.oneonx", "mvn", "detn", "bridge", "mixture", "gmrfcov", "inner", "joint"],
-            "leaves": {"x": "real", "y": "positive", "aff.loc": "real", "conv.w": "simplex", "n.loc": "real", "n.prec": "positive", "ln.mean": "positive", "ln.scale": "positive",
+            "evals": ["d.normal", "d.lognormal", "d.gamma", "d.head", "d.rev", "d.xy", "d.affine", "d.convex", "d.cse", "d.oneonx", "mvn", "detn", "bridge", "mixture", "gmrfcov", "lasso", "d.obs", "inner", "joint"],
+            "leaves": {"beta": "real", "obs.y": "real", "x": "real", "y": "positive", "aff.loc": "real", "conv.w": "simplex", "n.loc": "real", "n.prec": "positive", "ln.mean": "positive", "ln.scale": "positive",
                        "g.conc": "positive", "g.rate": "positive", "rev.loc": "real", "xy.scale": "positive", "mvn.loc": "real", "mvn.tril.unres": "real", "detn.loc": "real", "detn.scale": "positive",
                        "bb.scale": "positive", "bb.alpha": "unit", "sm.global": "positive", "sm.local": "positive", "gc.prec": "positive", "gc.beta": "real"},
-            "derived": ["x.first", "x.head", "x.rev", "xy", "y.log", "ylog.first", "x.affine", "y.convex", "x.cumsumexp", "mvn.tril"], "tensors": {}}
+            "derived": ["x.first", "x.head", "x.rev", "xy", "y.log", "ylog.first", "x.affine", "y.convex", "x.cumsumexp", "mvn.tril", "beta.exp"], "tensors": {}}
 
 
 def g_time_plain(rng):
